@@ -1960,7 +1960,8 @@ public:
                 typename deferred_events_queue_t::value_type const& d1,
                 typename deferred_events_queue_t::value_type const& d2)
             {
-                return d1.second > d2.second;
+                // the sequence counter wraps, compare through the difference
+                return static_cast<signed char>(d1.second - d2.second) > 0;
             }
         };
         struct set_sequence
